@@ -11,7 +11,8 @@ RULE = ("The harness writes CML documents of the Avogadro flavour (molecule/atom
         "bondArray/bond[atomRefs2,order], optional extra attributes, optional XML declaration, with or without "
         "bondArray; the molecule as document root or inside <cml>, <list>, <cml><list> or an outer <molecule>) from a known atom and bond list: 1-40 atoms; id schemes a1..an in order, shuffled, non-sequential, "
         "arbitrary strings; bond lists empty / random / reversed references; coordinates of any sign and magnitude "
-        "written as decimals, integers or exponents. The real loader's result is compared with the list; loading "
+        "written as decimals, integers or exponents (also 25.E-1, +1.25, .5, 1.25E+00, 5.), coordinates that are exactly zero in six "
+        "spellings, x2/y2 (xFract.., hydrogenCount) beside x3/y3/z3 on the same atom entry. The real loader's result is compared with the list; loading "
         "from a path (str and pathlib), from an open file and through Atoms.load(..., 'cml') must agree. The "
         "repository's own .cml files are loaded all three ways too. Non-trivial: id scheme other than in-order "
         "a1..an, or no bonds; distinct by generator seed.")
